@@ -50,11 +50,12 @@ type Ident struct {
 
 // Ev is one event of a history as the harness recorded it.
 type Ev struct {
-	K     string `json:"k"` // join leave traffic
-	ID    uint64 `json:"id"`
-	Who   *Ident `json:"who,omitempty"`
-	Count int    `json:"count,omitempty"`
-	Size  int    `json:"size,omitempty"`
+	K        string `json:"k"` // join leave traffic
+	ID       uint64 `json:"id"`
+	Who      *Ident `json:"who,omitempty"`
+	Internal bool   `json:"internal,omitempty"` // the relay's own stats reporter
+	Count    int    `json:"count,omitempty"`
+	Size     int    `json:"size,omitempty"`
 }
 
 type Case struct {
